@@ -25,3 +25,32 @@ Theorem C25_one_entry_per_row :
     t_idx (wrun kf ops empty_state) v1 k = true -> t_idx (wrun kf ops empty_state) v2 k = true -> v1 = v2.
 Proof. exact one_entry_per_row. Qed.
 Print Assumptions C25_one_entry_per_row.
+
+(* ---- version-control edits and keyless tables ---- *)
+From Dolt Require Import C25.Keyless C25.KeylessProofs.
+
+Theorem C25_edits_mirror_preserved :
+  forall (kf : row -> ikey) eds s, Mirror kf s -> Mirror kf (apply_edits kf s eds).
+Proof. exact edits_mirror_preserved. Qed.
+Print Assumptions C25_edits_mirror_preserved.
+
+Theorem C25_rebuild_mirrors :
+  forall (kf : row -> ikey) rows, Mirror kf {| t_rows := rows; t_idx := rebuild kf rows |}.
+Proof. exact rebuild_mirrors. Qed.
+Print Assumptions C25_rebuild_mirrors.
+
+Theorem C25_keyless_mirror_preserved :
+  forall (kf : row -> ikey) ops s, KMirror kf s -> KMirror kf (krun kf ops s).
+Proof. exact keyless_mirror_preserved. Qed.
+Print Assumptions C25_keyless_mirror_preserved.
+
+Theorem C25_keyless_mirror_from_empty :
+  forall (kf : row -> ikey) ops, KMirror kf (krun kf ops kempty).
+Proof. exact keyless_mirror_from_empty. Qed.
+Print Assumptions C25_keyless_mirror_from_empty.
+
+Theorem C25_keyless_partial_delete_keeps_entry :
+  forall (kf : row -> ikey) s r,
+    KMirror kf s -> 1 < k_card s r -> k_idx (one_delete kf s r) (kf r) r = true.
+Proof. exact keyless_partial_delete_keeps_entry. Qed.
+Print Assumptions C25_keyless_partial_delete_keeps_entry.
